@@ -390,7 +390,7 @@ def _rewrite_jumps(body):
             j = _skip_ws_comments(body, m.end())
             if body[j] != ';':
                 raise ExtractError('unexpected token after %s' % k)
-            out += body[i:m.start()] + 'goto lc_%s;' % k
+            out += body[i:m.start()] + ('{lc_broke = 1; goto lc_break;}' if k == 'break' else 'goto lc_continue;')
             i = j + 1
         elif k == 'do':
             e = _statement_end(body, m.end())
@@ -472,8 +472,9 @@ def extract_loopfn(repo, ent):
     g.append(ln(header) + header2 + '{\n')
     g.append(ln(pre) if pre.strip() else '')
     g.append(pre + '\n')
-    g.append('  { // loop scope (generated)\n')
+    g.append('  { // loop scope (generated)\n    int lc_broke = 0;\n')
     if k == 'do':
+        g.append('    %s_AT_ENTRY;\n' % P)
         g.append('    if (gh_lc_phase == 0) { __CPROVER_assert(%s_INV, "loop invariant holds on entry (base case)"); __CPROVER_assume(0); }\n' % P)
         g.append('    %s_HAVOC; __CPROVER_assume(%s_INV);\n' % (P, P))
         g.append('    { %s_FRAME_SNAPSHOT; unsigned long lc_decr_before = (%s_DECR);\n' % (P, P))
@@ -488,6 +489,7 @@ def extract_loopfn(repo, ent):
     else:
         if init.strip():
             g.append(ln(init) + '    ' + init.strip() + ';\n')
+        g.append('    %s_AT_ENTRY;\n' % P)
         g.append('    if (gh_lc_phase == 0) { __CPROVER_assert(%s_INV, "loop invariant holds on entry (base case)"); __CPROVER_assume(0); }\n' % P)
         g.append('    %s_HAVOC; __CPROVER_assume(%s_INV);\n' % (P, P))
         g.append('    %s_FRAME_SNAPSHOT; unsigned long lc_decr_before = (%s_DECR); // before COND: it may have side effects\n' % (P, P))
@@ -501,7 +503,7 @@ def extract_loopfn(repo, ent):
         g.append('        __CPROVER_assert((%s_DECR) < lc_decr_before, "loop variant decreases");\n' % P)
         g.append('        __CPROVER_assert(%s_FRAME_UNCHANGED, "loop frame: nothing outside the loop assigns clause changed");\n' % P)
         g.append('        __CPROVER_assume(0);\n      }\n')
-    g.append('    lc_break: ;\n  }\n')
+    g.append('    lc_break: ;\n    %s_AT_EXIT;\n  }\n' % P)
     g.append(ln(post) if post.strip() else '')
     g.append(post + '\n}\n')
     gen = ''.join(g)
